@@ -306,4 +306,110 @@ Proof.
   exists (v_h (k_vot s)), (v_r (k_vot s)), (v_h (k_com s)), (v_r (k_com s)).
   unfold stores_of. cbn [sr_nhr sr_hdrs sr_rounds sr_replayed].
   split; [exact Hnhr|]. repeat (split; [assumption|]). assumption.
-Time Qed.
+Qed.
+
+(** * The three shift checks *)
+Lemma K_check_voting ih ivs s s' :
+  K ih ivs s -> check_voting_precommit_shift s = Ok s' -> K ih ivs s' /\ pref ih ivs s s'.
+Proof.
+  intros H. pose proof H as (_&_&_&_&_&_&HS).
+  unfold check_voting_precommit_shift, bind.
+  destruct (byz_majority _) as [maj|] eqn:Hmaj; [|discriminate].
+  destruct (_ <? maj) eqn:Hlt.
+  - destruct (_ =? _); intros E; inversion E; subst; [apply K_advance; exact H|].
+    split; [exact H|apply pref_refl; exact HS].
+  - destruct (sm_mpc _) eqn:Hm.
+    + intros E; inversion E; subst. apply K_advance; exact H.
+    + rewrite <- Hm in *. destruct (find _ _) as [p|] eqn:Hf; intros E; inversion E; subst;
+        [|split; [exact H|apply pref_refl; exact HS]].
+      pose proof (find_in _ _ _ Hf) as Hin.
+      pose proof (find_some _ _ Hf) as [_ Heq]. apply bytes_eqb_eq in Heq.
+      apply K_shift; [exact H|exact Hin|].
+      exists maj. split; [exact Hmaj|]. rewrite Heq. apply N.ltb_ge in Hlt. exact Hlt.
+Qed.
+
+Lemma K_check_next_round ih ivs s s' :
+  K ih ivs s -> check_next_round_precommit_shift s = Ok s' -> K ih ivs s' /\ pref ih ivs s s'.
+Proof.
+  intros H. pose proof H as (_&_&_&_&_&_&HS).
+  unfold check_next_round_precommit_shift, bind.
+  destruct (byz_minority _) as [mn|]; [|discriminate].
+  destruct (_ <? mn); [intros E; inversion E; subst; split; [exact H|apply pref_refl; exact HS]|].
+  destruct (byz_majority _) as [maj|]; [|discriminate].
+  destruct (K_jump ih ivs s H) as [H1 P1].
+  destruct (maj <=? _).
+  - intros E. destruct (K_check_voting _ _ _ _ H1 E) as [H2 P2].
+    split; [exact H2|eapply pref_trans; eassumption].
+  - intros E; inversion E; subst. split; assumption.
+Qed.
+
+Lemma K_check_prevote ih ivs s s' :
+  K ih ivs s -> check_prevote_shift s = Ok s' -> K ih ivs s' /\ pref ih ivs s s'.
+Proof.
+  intros H. pose proof H as (_&_&_&_&_&_&HS).
+  unfold check_prevote_shift, bind.
+  destruct (byz_minority _) as [mn|]; [|discriminate].
+  destruct (_ <? mn); intros E; inversion E; subst; [split; [exact H|apply pref_refl; exact HS]|].
+  apply K_jump; exact H.
+Qed.
+
+Lemma K_recheck ih ivs s s' :
+  K ih ivs s -> recheck_view_shifts s = Ok s' -> K ih ivs s' /\ pref ih ivs s s'.
+Proof.
+  intros H. unfold recheck_view_shifts, bind.
+  destruct (check_voting_precommit_shift s) as [s1|] eqn:E1; [|discriminate].
+  destruct (K_check_voting _ _ _ _ H E1) as [H1 P1].
+  destruct (negb _); [intros E; inversion E; subst; split; assumption|].
+  destruct (check_next_round_precommit_shift s1) as [s2|] eqn:E2; [|discriminate].
+  destruct (K_check_next_round _ _ _ _ H1 E2) as [H2 P2].
+  destruct (negb _); [intros E; inversion E; subst; split; [exact H2|eapply pref_trans; eassumption]|].
+  intros E3. destruct (K_check_prevote _ _ _ _ H2 E3) as [H3 P3].
+  split; [exact H3|]. eapply pref_trans; [exact P1|]. eapply pref_trans; eassumption.
+Qed.
+
+(** [update_observers] in a state whose stored position is already the views' position *)
+Lemma update_observers_same ih ivs s : cinv ih ivs s ->
+  stores_of (update_observers s) = stores_of s /\ frame_eq s (update_observers s).
+Proof.
+  intros Hc. pose proof (cinv_nhr _ _ _ Hc) as Hn. split.
+  - unfold stores_of, update_observers. cbn. rewrite <- Hn. reflexivity.
+  - unfold frame_eq, pos_eq, update_observers. cbn. rewrite <- Hn. repeat split.
+Qed.
+
+Lemma K_update_observers ih ivs s : K ih ivs s ->
+  K ih ivs (update_observers s) /\ pref ih ivs s (update_observers s).
+Proof.
+  intros (HI&HP&(Xc&Xn&X1&Xk&Xs)).
+  destruct (update_observers_same ih ivs s (proj1 HI)) as [Es F].
+  assert (HS' : SI ih ivs (stores_of (update_observers s))) by (rewrite Es; exact Xs).
+  split.
+  - split; [eapply INV_frame_rounds; [exact F|reflexivity|reflexivity|reflexivity|exact HI]|].
+    split; [exact HP|]. split; [exact Xc|]. split; [exact Xn|]. split; [exact X1|]. split; [exact Xk|exact HS'].
+  - eapply pref_one; [reflexivity|reflexivity|exact Xs|exact HS'].
+Qed.
+
+(** * Clean restart and restart on any store satisfying [SI] *)
+Theorem restart_K ih ivs st vals log :
+  1 <= ih -> vwf ivs -> SI ih ivs st ->
+  exists s0 s1,
+    restart ih ivs st vals log = Ok (update_observers s1) /\
+    recheck_view_shifts s0 = Ok s1 /\
+    stores_of s0 = st /\ st_log s0 = log /\ st_vals s0 = vals /\
+    K ih ivs s0 /\ tinv s0 /\ adv s0 s1 /\
+    K ih ivs (update_observers s1) /\ tinv (update_observers s1) /\
+    pref ih ivs s0 (update_observers s1).
+Proof.
+  intros Hih Hivs HSI.
+  destruct (restart_on_SI ih ivs st vals log Hih Hivs HSI)
+    as (s0&s1&Er&Ec&Es&El&Ev&I0&T0&C0&N0&N10&K0&I1&T1&A1).
+  assert (HK0 : K ih ivs s0).
+  { split; [exact I0|]. split; [exact (proj2 T0)|]. split; [exact C0|]. split; [exact N0|].
+    split; [exact N10|]. split; [exact K0|]. rewrite Es. exact HSI. }
+  destruct (K_recheck _ _ _ _ HK0 Ec) as [HK1 P1].
+  destruct (K_update_observers _ _ _ HK1) as [HK2 P2].
+  exists s0, s1. split; [exact Er|]. split; [exact Ec|]. split; [exact Es|]. split; [exact El|].
+  split; [exact Ev|]. split; [exact HK0|]. split; [exact T0|]. split; [exact A1|]. split; [exact HK2|].
+  split; [|eapply pref_trans; eassumption].
+  destruct T1 as [A P]. split; [|exact P].
+  eapply aok_frame; [| | |exact A]; reflexivity.
+Qed.
